@@ -128,6 +128,7 @@ func ghosthavoc(name string) {}
 func visited(k any) bool { return true }
 func deref[T any](p *T) T { return *p }
 func fieldOf(p any, name string) any { return nil }
+func ghostcall(name string, args ...any) bool { return true }
 func heapHas(x any, s uint64) bool { return false }
 func heapRef[T any](x any, s uint64) T { var z T; return z }
 func heapLen(x any) int { return 0 }
